@@ -55,12 +55,16 @@ def generate(rng, tier, cls):
 
         for key in keys:
             v = rng.choice(gen.UNKNOWN_VALUES)
+
+            if rng.chance(0.03):
+                # very long values: header lines beyond any line buffer
+                v = 'x' * rng.choice([200, 4090, 8100, 8200, 9000, 70000])
             faults.append({'kind': 'skew', 'file': 'f1', 'section': i,
                            'key': key, 'value': v, 'pos': rng.below(6)})
 
     bs = rng.choice([None, None, 1, 7, 64, 97])
     return {'actors': [prod], 'schedule': [], 'faults': faults,
-            'block_size': bs}
+            'block_size': bs, 'stream': gen.gen_stream(rng)[0]}
 
 
 def vclass(v):
@@ -100,8 +104,11 @@ def execute(scn, L):
         return out
 
     bs = scn.get('block_size')
+    sk = scn.get('stream') if scn.get('stream') in (
+        'sim', 'bytesio', 'buffered') else 'sim'
     w1 = World(scn, L)
-    orig, end, exc = read_all(w1, intact, block_size=bs, actor='orig')
+    orig, end, exc = read_all(w1, intact, block_size=bs, stream=sk, buf=97,
+                               actor='orig')
     out.absorb(w1)
 
     if end != 'eof' or len(orig) != len(ref):
@@ -133,7 +140,8 @@ def execute(scn, L):
 
     w2 = World(scn, L)
     ext = apply_faults(w2, intact, faults, actors[0]['file'])
-    got, end2, exc2 = read_all(w2, ext, block_size=bs, actor='ext')
+    got, end2, exc2 = read_all(w2, ext, block_size=bs, stream=sk, buf=97,
+                                actor='ext')
     out.absorb(w2)
     out.case_key = pipe.scn_digest([ext.hex(), bs])
     out.nontrivial = bool(added) and len(ref) >= 3 and ext != intact
